@@ -4,5 +4,5 @@
 import sys
 sys.path[:0] = ['/repo' + "/pulser-core", '/repo' + "/pulser-simulation", "/verif"]
 from symx.replay import replay
-sys.exit(replay(check='checks.c01', kernel='slm', shape={'order': 'mask_first', 'masked': ['q0', 'q1', 'q2'], 'rem': 0},
+sys.exit(replay(check='checks.c01', kernel='slm', shape={'order': 'mask_first', 'masked': ['q0', 'q1'], 'rem': 0},
                 assignment={'amp': '1025017207358883/140737488355328', 'dur/k': 2}, label='slm:masked_add_is_accepted'))
